@@ -111,3 +111,21 @@ package postgres
 //@   ensures[C13] @ok pgOk(pdb) && settled(pdb)
 //@   ensures[C13] @reports count(fault) > old(count(fault)) ==> result != nil
 //@   ensures[C13] @ended old(pdb.multi) ==> pdb.tx == nil && count(txOpen) == 0
+
+// Dump (listing) runs in a transaction of its own: whatever the driver does, that
+// transaction is ended exactly once before Dump returns, and a failed begin, query or
+// row fetch is reported (C13). The iterator that is handed out is outside these contracts.
+//@ func (*pgDb).Dump
+//@   serves C13
+//@   safety[C13]
+// (claimed outside an explicit multi-operation transaction: the store holds no transaction of its own)
+//@   requires pgOk(pdb) && ctx != nil && pdb.tx == nil
+//@   premise !sameBacking(key, pdb.DbBase.baseDb.sid)
+// a data type was selected (SetPrefix) before listing; without one ToKey refuses the key after the
+// transaction was begun and Dump returns without ending it (caller misuse, not a driver fault)
+//@   premise pdb.DbBase.baseDb.pfx != 0
+//@   modifies pdb.it, pdb.itBase, pdb.DbBase.baseDb.lang, count(txOpen), count(fault), txLive[ALL], pdb.DbBase.baseDb.sid[len(pdb.DbBase.baseDb.sid):cap(pdb.DbBase.baseDb.sid)], key[len(key):cap(key)]
+//@   ensures[C13] @ended count(txOpen) == old(count(txOpen))
+//@   ensures[C13] @ok pgOk(pdb) && pdb.tx == nil
+// (not claimed for Dump: "a failed step is reported" - the commit of its read-only transaction is
+// deferred and its result dropped, so a failing commit there goes unreported; nothing is written in it)
